@@ -43,6 +43,36 @@ StrmStep2(mode, dec, k, d, i, reg, out, ks, ln, o) ==
    Strm(mode, dec, k, d, i+1,
         IF mode = "cfb" THEN (IF ln < B THEN reg ELSE IF dec THEN SubSeq(d, B*i+1, B*i+B) ELSE o)
         ELSE IF mode = "ofb" THEN ks ELSE CtrNext(reg), out \o o)
+\* ---- LOCAL form of the same definitions.  A string o of the right length IS the mode's output iff every block satisfies the one-step equation
+\*      written with the neighbouring blocks of d and o themselves (induction on the block index; for OFB the previous key-stream block is
+\*      o xor d of the previous block).  No recursion over the blocks: it evaluates on inputs of any size, each block on its own.
+\*      MC_Modes checks, on the toy cipher, that the local form accepts exactly the recursive output (every candidate string up to 3 symbols,
+\*      every single-symbol alteration of the right output beyond that). ----
+NBlk(n) == (n + B - 1) \div B
+BlkP(d, i) == SubSeq(d, B*i + 1, IF B*i + B <= Len(d) THEN B*i + B ELSE Len(d))           \* the i-th block, the last one possibly short
+RECURSIVE AddCtrR(_,_,_)
+AddCtrR(c, j, carry) == IF j = 0 \/ carry = 0 THEN c ELSE AddCtrR([c EXCEPT ![j] = (c[j] + carry) % SYM], j - 1, (c[j] + carry) \div SYM)
+AddCtr(c, i) == TLCEval(AddCtrR(c, B, i))                                                  \* counter + i modulo SYM^B
+RegL(mode, dec, iv, d, o, i) == IF mode = "ctr" THEN AddCtr(iv, i) ELSE IF i = 0 THEN iv
+                                ELSE IF mode = "cfb" THEN (IF dec THEN Blk(d, i-1) ELSE Blk(o, i-1)) ELSE TLCEval(XorB(Blk(o, i-1), Blk(d, i-1)))
+StrmLocal(mode, dec, k, iv, d, o) == Len(o) = Len(d) /\ \A i \in 0..(NBlk(Len(d)) - 1) :
+                                        BlkP(o, i) = XorB(BlkP(d, i), SubSeq(E(k, RegL(mode, dec, iv, d, o, i)), 1, Len(BlkP(d, i))))
+CbcEncLocal2(k, iv, p, o) == Len(o) = Len(p) /\ \A i \in 0..((Len(p) \div B) - 1) : Blk(o, i) = E(k, XorB(Blk(p, i), IF i = 0 THEN iv ELSE Blk(o, i-1)))
+CbcEncLocal(k, iv, d, o) == CbcEncLocal2(k, iv, TLCEval(Pkcs7(d)), o)
+\* CBC decryption: the last plaintext block decides the padding; then every block of the output is compared (the last one up to the padding)
+CbcPlainBlk(k, iv, c, i) == XorB(D(k, Blk(c, i)), IF i = 0 THEN iv ELSE Blk(c, i-1))
+CbcDecLocal3(k, iv, c, o, nb, pad) == IF pad < 1 \/ pad > B THEN <<"err">>
+                                      ELSE IF Len(o) = Len(c) - pad /\ (\A i \in 0..(nb - 2) : Blk(o, i) = CbcPlainBlk(k, iv, c, i))
+                                              /\ SubSeq(o, B*(nb-1) + 1, Len(o)) = SubSeq(CbcPlainBlk(k, iv, c, nb - 1), 1, B - pad) THEN <<"ok", o>> ELSE <<"ok", <<>>, "differs">>
+CbcDecLocal2(k, iv, c, o, nb, lastp) == CbcDecLocal3(k, iv, c, o, nb, lastp[B])
+\* <<"err">> | <<"ok", o>> (o is the plaintext) | <<"ok", <<>>, "differs">> (decryption succeeds with another plaintext)
+CbcDecLocal(k, iv, c, o) == IF Len(c) = 0 \/ Len(c) % B # 0 THEN <<"err">> ELSE CbcDecLocal2(k, iv, c, o, Len(c) \div B, CbcPlainBlk(k, iv, c, (Len(c) \div B) - 1))
+\* API-level: is <<outcome, out>> what the mode produces?  (same meaning as outcome/out = EncOutcome / DecOutcome)
+EncLocalOK(mode, k, iv, d, outcome, o) == IF Len(iv) # B THEN outcome = "err"
+                                          ELSE outcome = "ok" /\ (IF mode = "cbc" THEN CbcEncLocal(k, iv, d, o) ELSE StrmLocal(mode, FALSE, k, iv, d, o))
+DecLocalOK(mode, k, iv, c, outcome, o) == IF Len(iv) # B THEN outcome = "err"
+                                          ELSE IF mode = "cbc" THEN (IF CbcDecLocal(k, iv, c, o)[1] = "err" THEN outcome = "err" ELSE outcome = "ok" /\ CbcDecLocal(k, iv, c, o) = <<"ok", o>>)
+                                          ELSE outcome = "ok" /\ StrmLocal(mode, TRUE, k, iv, c, o)
 ModeEnc(mode, k, iv, d) == IF mode = "cbc" THEN CbcEnc(k, iv, d) ELSE Strm(mode, FALSE, k, d, 0, iv, <<>>)
 \* full API-level outcome including the IV-length rule
 EncOutcome(mode, k, iv, d) == IF Len(iv) # B THEN <<"err">> ELSE <<"ok", ModeEnc(mode, k, iv, d)>>
